@@ -597,10 +597,17 @@ func (h *harness) cacheCases(n int) error {
 		}
 		pool = append(pool, v2.Vec{X: 0, Y: 0}, v2.Vec{X: negz, Y: 0}, v2.Vec{X: 0, Y: negz}, v2.Vec{X: -1, Y: 0}, v2.Vec{X: -1, Y: negz},
 			v2.Vec{X: h.rng.Dyadic(4, 2), Y: h.rng.Dyadic(4, 2)})
-		stratum := "repeats+signed-zero"
+		// near-duplicates: distinct float64 points that agree to far more digits than any coarser
+		// key (float32, rounded decimals, a grid) can tell apart - each is a query of its own
+		for j := 0; j < 4; j++ {
+			q := pool[h.rng.Intn(8)]
+			pool = append(pool, v2.Vec{X: math.Nextafter(q.X, math.Inf(1)), Y: q.Y}, v2.Vec{X: q.X, Y: q.Y * (1 + 1e-12)},
+				v2.Vec{X: q.X + 1e-10, Y: q.Y - 1e-10})
+		}
+		stratum := "repeats+signed-zero+near-duplicates"
 		if i%7 == 3 {
 			pool = append(pool, v2.Vec{X: math.NaN(), Y: 1})
-			stratum = "repeats+signed-zero+nan"
+			stratum = "repeats+signed-zero+near-duplicates+nan"
 		}
 		var qs []v2.Vec
 		for j := 0; j < nq; j++ {
